@@ -64,6 +64,11 @@ Definition st0 : pstate := mkP 0 0 false [] false.   (* readState{} *)
 
 Inductive pres := POk (r : reply) | PErr | PCrash.
 
+(* resp.MakeErrorData: an error text is framed as one line, so CR and LF in it are replaced by
+   spaces (also when the text comes from a client's "-..." line) *)
+Definition sanitize_err (s : bytes) : bytes :=
+  map (fun c => if beqb c bCR || beqb c bLF then " "%byte else c) s.
+
 Definition parse_single_line (msg : bytes) : pres :=
   match at_z msg 0 with                               (* msgType := msg[0] *)
   | None => PCrash
@@ -73,7 +78,7 @@ Definition parse_single_line (msg : bytes) : pres :=
          | None => PCrash
          | Some d =>
            if beqb t bPlus then POk (RSimple d)
-           else if beqb t bMinus then POk (RErr d)
+           else if beqb t bMinus then POk (RErr (sanitize_err d))
            else if beqb t bColon then
              match atoi64 d with Some z => POk (RInt z) | None => PErr end
            else POk (RPlain d)
